@@ -2258,6 +2258,7 @@ def convert_squared_difference(op, arch, nng):
 
         # Convert ifm to 32 bit
         ifm_32bit_shifted = ifm.clone(suffix="_ifm_32bit_shifted", set_unique=True)
+        ifm_32bit_shifted.values = None  # an intermediate result, also when the operand is a constant
         ifm_32bit_shifted.dtype = DataType.int32
         ifm_32bit_shifted.quantization = identity_quant
         cast_op = create_cast_op(op.name + "_ifm_32bit_shifted", ifm, ifm_32bit_shifted)
@@ -2267,6 +2268,7 @@ def convert_squared_difference(op, arch, nng):
 
         # 32 bit Mul op do not scale the value so the input has to be multiplied with the "multiplier" calculated above
         ifm_scaled = ifm.clone(suffix="_scaled", set_unique=True)
+        ifm_scaled.values = None  # an intermediate result, also when the operand is a constant
         ifm_scaled.dtype = DataType.int32
         ifm_scaled.quantization = identity_quant
         mul_op = Operation(Op.Mul, op.name + "_scaled_input1")
@@ -2280,6 +2282,7 @@ def convert_squared_difference(op, arch, nng):
 
         # Convert ifm2 to 32 bit
         ifm2_32bit_shifted = ifm2.clone(suffix="_ifm2_32bit_shifted", set_unique=True)
+        ifm2_32bit_shifted.values = None  # an intermediate result, also when the operand is a constant
         ifm2_32bit_shifted.dtype = DataType.int32
         ifm2_32bit_shifted.quantization = identity_quant
         cast_op = create_cast_op(op.name + "_ifm2_32bit_shifted", ifm2, ifm2_32bit_shifted)
@@ -2289,6 +2292,7 @@ def convert_squared_difference(op, arch, nng):
 
         # 32 bit Mul op do not scale the value so input has to be multiplied with the "multiplier" calculated above
         ifm2_scaled = ifm2.clone(suffix="_scaled", set_unique=True)
+        ifm2_scaled.values = None  # an intermediate result, also when the operand is a constant
         ifm2_scaled.dtype = DataType.int32
         ifm2_scaled.quantization = identity_quant
         mul_op = Operation(Op.Mul, op.name + "_scaled_input2")
@@ -2302,6 +2306,7 @@ def convert_squared_difference(op, arch, nng):
 
         # Calculate the raw diff
         raw_diff = ifm.clone(suffix="_raw_diff", set_unique=True)
+        raw_diff.values = None  # an intermediate result, also when the operand is a constant
         raw_diff.dtype = DataType.int32
         raw_diff.quantization = None
         sub_op = Operation(Op.Sub, op.name + "_raw_diff")
@@ -2313,6 +2318,7 @@ def convert_squared_difference(op, arch, nng):
 
         # Calculate the squared diff
         squared_raw = ifm.clone(suffix="_squared_raw", set_unique=True)
+        squared_raw.values = None  # an intermediate result, also when the operand is a constant
         squared_raw.dtype = DataType.int32
         squared_raw.quantization = None
         mul_op = Operation(Op.Mul, op.name + "_squared_raw")
